@@ -434,3 +434,24 @@ def h_styles_independent(l1: int, n1: int) -> bool:
     ok = ok and _get_leaf(a.style, k) == vals[0]
     _set_leaf(a.style, k, None, 0)
     return ok
+
+
+# ---------------------------------------------------------------------------- constructor style arguments are the FIRST assignment
+def h_constructor_style_then_assignment(leaf: int, how: int, read_first: bool) -> bool:
+    """
+    pre: 0 <= leaf <= 2 and 0 <= how <= 3
+    post: _
+    """
+    # a style value given to the constructor (applied lazily on first access) followed by an assignment of the same leaf as
+    # update(underscore) / update(nested) / attribute / `obj.style = {...}`: the later assignment is the effective one, whether or not the
+    # style was read in between
+    k, vals = _pick((_OBJ_LEAVES[0], _OBJ_LEAVES[3], _OBJ_LEAVES[5]), leaf)  # opacity, magnetization.arrow.size, path.marker.size
+    o = magpy.magnet.Cuboid(polarization=(0, 0, 1), dimension=(1, 1, 1), **{"style_" + k.replace(".", "_"): vals[0]})
+    ok = True
+    if read_first:
+        ok = _get_leaf(o.style, k) == vals[0]
+    if how <= 2:
+        _set_leaf(o.style, k, vals[1], how)
+    else:
+        o.style = {k.replace(".", "_"): vals[1]}
+    return ok and _get_leaf(o.style, k) == vals[1]
